@@ -31,6 +31,25 @@ Theorem revoked_only_completes_revocation :
 Proof. exact revoked_only_completes_revocation_lemma. Qed.
 Print Assumptions revoked_only_completes_revocation.
 
+(* ... and per key: a response accepted in revocation-only mode leaves alone every trusted anchor whose OWN
+   REVOKE-flagged self-signed form is not in it — it stays live, its state entry is written back unchanged, its
+   material is neither tombstoned nor counted as revoked — whatever other REVOKE-flagged keys the response lists
+   (a revoked, compromised K1 cannot remove a healthy K2 by serving {K1+REVOKE, K2+REVOKE} signed by K1 alone). *)
+Theorem revoked_only_keeps_other_anchors :
+  forall (tag : key -> N) live cfg d now keys sigs fl ksk2 tombs2 t a,
+    prefetch tag live cfg d now fl = Some (ksk2, tombs2) ->
+    authenticate tag (trusted_keys ksk2) keys sigs = AuthRevOnly ->
+    lookup t ksk2 = Some a -> is_trusted_st a = true ->
+    (forall t' k, lookup t' (fetched_map tag keys) = Some k -> is_rev k = true -> k_mat k = ta_mat a -> verify_with tag [k] sigs = false) ->
+    (f_twrite fl = false \/ f_swrite fl = false) ->
+    let r := autota tag live cfg d now (FResp keys sigs) fl in
+    In (ta_key a) (r_live r) /\
+    (forall s5, In (WState s5) (r_writes r) -> lookup t s5 = Some a) /\
+    (forall tb, In (WTomb tb) (r_writes r) -> mem (ta_mat a) tb = false) /\
+    ~ In (ta_mat a) (r_revoked r).
+Proof. exact revoked_only_keeps_other_anchors_lemma. Qed.
+Print Assumptions revoked_only_keeps_other_anchors.
+
 Theorem revoked_only_means :
   forall (tag : key -> N) cand keys sigs,
     authenticate tag cand keys sigs = AuthRevOnly ->
@@ -219,16 +238,17 @@ Theorem missing_expires :
 Proof. exact missing_expires_lemma. Qed.
 Print Assumptions missing_expires.
 
-(* The real key tag.  keytag_of = dnssec.KeyTag for single-chunk keys (head and fold written from keytag.go,
-   the octet-sum loop TRANSLATED from the function body, gen_keytag_octet_sum; tied to the code by the CTag
-   cases).  Setting the REVOKE bit moves the tag by 128 or by 129 (mod 2^16) — both occur (Example
+(* The real key tag.  keytag_of = dnssec.KeyTag over the decoded key, read in 192-octet chunks as the code does
+   (head and fold written from keytag.go, the per-chunk octet-sum loop TRANSLATED from the function body,
+   gen_keytag_octet_sum, chunk size from keyTagChunk; chunked_sum_spec: the chunked read is the RFC 4034 sum over
+   the whole key; tied to the code by the CTag cases, Ed25519 and multi-chunk RSA-2048/4096 keys).  Setting the REVOKE bit moves the tag by 128 or by 129 (mod 2^16) — both occur (Example
    keytag_revoke_adds_128_or_129 on real keys) — so the anchor of a revoked DNSKEY cannot be found by a
    constant tag delta; the code uses unrevokedKeyTag (1f61a03), and every theorem above holds for an arbitrary
    tag function. *)
 Theorem keytag_revoke_moves_tag_by_128_or_129 :
   forall flags proto alg material,
     flags < 65536 -> N.land flags 128 = 0 -> proto < 256 -> alg < 256 ->
-    Forall (fun x => x < 256) material -> (length material <= 192)%nat ->
+    Forall (fun x => x < 256) material -> (length material <= 4092)%nat ->
     let t := keytag_of flags proto alg material in
     let t' := keytag_of (flags + 128) proto alg material in
     t' = (t + 128) mod 65536 \/ t' = (t + 129) mod 65536.
